@@ -3,6 +3,6 @@
 u=$1; shift
 t=/var/tmp/verif.showloops; rm -rf $t; mkdir -p $t
 python3 /verif/tools/prep_tree.py /repo $t >/dev/null
-goto-cc -x c++ -Dprivate=public -Dprotected=public -DVERIF_CBMC=1 "$@" -I$t/src -I/verif/contracts/common -I/verif/contracts -c /verif/contracts/$u -o $t/a.gb || exit 1
+goto-cc -x c++ -Dprivate=public -Dprotected=public -DVERIF_CBMC=1 "-DVERIF_PURE_BODY={ __CPROVER_assert(0, \"pure virtual called\"); }" "$@" -I$t/src -I/verif/contracts/common -I/verif/contracts -c /verif/contracts/$u -o $t/a.gb || exit 1
 goto-instrument --show-loops $t/a.gb 2>/dev/null | grep -A1 "^Loop" | grep -v "^--" | paste - - | awk '{print $2,$5,$6}'
 rm -rf $t
